@@ -180,9 +180,33 @@ func GenBalFlags(r *simrt.Rand, j *Journal, o FlagOpts) *BalFlags {
 	if !o.NoFilters {
 		if r.P(0.2) && len(accs) > 0 {
 			f.Accounts = append(f.Accounts, pickRegex(r, accs))
+			// several filters of one kind are alternatives; each is a regex of its own
+			// (an inline flag such as (?i) applies to that one only)
+			for r.P(0.35) && len(f.Accounts) < 3 {
+				x := pickRegex(r, accs)
+				if r.P(0.4) {
+					x = "(?i)" + strings.ToLower(x)
+				}
+				if r.P(0.5) {
+					f.Accounts = append(f.Accounts, x)
+				} else {
+					f.Accounts = append([]string{x}, f.Accounts...)
+				}
+			}
 		}
 		if r.P(0.15) && len(coms) > 0 {
 			f.Commodities = append(f.Commodities, "^"+regexp.QuoteMeta(coms[r.Intn(len(coms))])+"$")
+			for r.P(0.35) && len(f.Commodities) < 3 {
+				x := "^" + regexp.QuoteMeta(coms[r.Intn(len(coms))]) + "$"
+				if r.P(0.4) {
+					x = "(?i)" + strings.ToLower(x)
+				}
+				if r.P(0.5) {
+					f.Commodities = append(f.Commodities, x)
+				} else {
+					f.Commodities = append([]string{x}, f.Commodities...)
+				}
+			}
 		}
 	}
 	if !o.NoMapping && (!o.NoFilters || o.KeepAll) {
